@@ -317,3 +317,33 @@ UNITS += [
        loops={0: {'inv': ["0 <= num_subs and num_subs <= 100"], 'dec': "101 - num_subs"},
               1: {'inv': []}}),
 ]
+
+
+# ---------------------------------------------------------------------------------------------------------------
+# Annotations.BuildFlagValues proved: defaults (@DefineFlag) overridden by @ResetFlagValue overridden by user flags;
+# a flag the user passes without a definition (other than logica_default_engine) is the only reason for the diagnostic.
+DEF = "self.annotations['@DefineFlag']"
+RST = "self.annotations['@ResetFlagValue']"
+DEFLT = "DEF[f].get('1', '${%s}' % f)".replace('DEF', DEF)
+RSTV = "RST[f].get('1', '${%s}' % f)".replace('RST', RST)
+ALLOWED = "all(f in DEF or f == 'logica_default_engine' for f in self.user_flags)".replace('DEF', DEF)
+
+UNITS += [
+  unit(U, 'Annotations.BuildFlagValues', name='Annotations.BuildFlagValues[proved]', props=['C10'], params=[],
+       fields={'self.annotations': 'dict[str,dict[str,dict[str,val]]]', 'self.user_flags': 'dict[str,val]'}, modifies=[],
+       returns='dict[str,val]',
+       locals={'default_values': 'dict[str,val]', 'programmatic_flag_values': 'dict[str,val]', 'flag_values': 'dict[str,val]'},
+       exceptions=['RuleCompileException'], raises={'RuleCompileException': "not (%s)" % ALLOWED},
+       requires=["'@DefineFlag' in self.annotations", "'@ResetFlagValue' in self.annotations"],
+       ensures=[
+           "all(f in result for f in DEF)".replace('DEF', DEF), "all(f in result for f in RST)".replace('RST', RST),
+           "all(f in result for f in self.user_flags)",
+           "all(f in DEF or f in RST or f in self.user_flags for f in result)".replace('DEF', DEF).replace('RST', RST),
+           ("all(result[f] == (self.user_flags[f] if f in self.user_flags else (RSTV if f in RST else DEFLT)) "
+            "for f in result)").replace('RSTV', RSTV).replace('DEFLT', DEFLT).replace('RST', RST)],
+       loops={0: {'inv': ["all(f in default_values and default_values[f] == DEFLT for f in _visited0)".replace('DEFLT', DEFLT),
+                          "all(f in _visited0 for f in default_values)"]},
+              1: {'inv': ["all(f in programmatic_flag_values and programmatic_flag_values[f] == RSTV for f in _visited1)"
+                          .replace('RSTV', RSTV), "all(f in _visited1 for f in programmatic_flag_values)"]}},
+       native=gen_flags, native_skip_ensures=[]),
+]
